@@ -541,5 +541,48 @@ func (w *world) genLookupTables() string {
 		}
 	}
 	sb.WriteString("\n")
+	// priority tables filled in init(): m[K] = V
+	for _, tbl := range []string{"cmppDataCodingPriority", "smppDataCodingPriority"} {
+		rows := w.initAssignments(dc, tbl)
+		fmt.Fprintf(&sb, "/-- `datacoding.%s` (coding number ↦ priority; smaller is preferred) -/\ndef %s : List (Nat × Nat) := [%s]\n\n", tbl, tbl, strings.Join(rows, ", "))
+	}
 	return sb.String()
+}
+
+// initAssignments collects `name[K] = V` statements with constant K, V from the package's init functions.
+func (w *world) initAssignments(pkgPath, name string) []string {
+	p := w.pkgs[pkgPath]
+	var rows []string
+	if p == nil {
+		return rows
+	}
+	for _, f := range p.Syntax {
+		for _, d := range f.Decls {
+			fd, ok := d.(*ast.FuncDecl)
+			if !ok || fd.Name.Name != "init" || fd.Recv != nil {
+				continue
+			}
+			for _, st := range fd.Body.List {
+				as, ok := st.(*ast.AssignStmt)
+				if !ok || len(as.Lhs) != 1 || len(as.Rhs) != 1 {
+					continue
+				}
+				ix, ok := as.Lhs[0].(*ast.IndexExpr)
+				if !ok {
+					continue
+				}
+				if id, ok := ix.X.(*ast.Ident); !ok || id.Name != name {
+					continue
+				}
+				k, ok1 := constU64(p.TypesInfo, ix.Index)
+				v, ok2 := constU64(p.TypesInfo, as.Rhs[0])
+				if ok1 && ok2 {
+					rows = append(rows, fmt.Sprintf("(%d, %d)", k, v))
+				} else {
+					rows = append(rows, fmt.Sprintf("(0, 0) /- unsupported %s -/", w.pos(st)))
+				}
+			}
+		}
+	}
+	return rows
 }
